@@ -1489,5 +1489,22 @@ C08_PREC_W0 = dict(
     vars={"an": "qnum", "bn": "qnum", "C": "isqrt"},
     prims=_C08_SELF + _C08_SCALAR + _C08_SQRT + _C08_DRAWS + _C08_VEC,
 )
-C08_ALL = [C08_N_OBS, C08_GET, C08_MCMC_STEP, C08_ALPHA, C08_PREC_OBS, C08_PREC_W0]
+# the scalar Gaussian blocks.  `self.X[i] = v` stores into the state's array X; `self.Mu[idx] += x` is numpy's fancy-index update
+_store = lambda f: ("self.%s[__i] = __v" % f, "self'", "set_%s {state} (np_store (%s {state}) {i} {v})" % (f, f))
+_MU_IADD_SCALAR = ("self.Mu[__i] += __v", "self'", "set_Mu {state} (np_iadd_at_scalar (Mu {state}) {i} {v})")
+_Y_STAR2 = "y, _, *_ = self.encode_obs()\n"
+_C08_BLOCK_PRIMS = _C08_SELF + _C08_SCALAR + _C08_SQRT[:2] + _C08_DRAWS + _C08_VEC
+C08_W0_STEP = dict(
+    _STMETHOD, func="_W0_step", name="src_W0_step", params=_GDS,
+    vars={"y": _QV, "c": "Z", "cidx": _NV, "stddev": "isqrt", "resid": _QV, "old_contrib": "qnum", "N": "Z", "mean": "qnum"},
+    prims=_C08_BLOCK_PRIMS, stmt_prims=[(_Y_STAR2, "y", "d_y d", _QV)],
+    assign_effects=[_store("W0"), _MU_IADD_SCALAR],
+)
+C08_V0_STEP = dict(
+    _STMETHOD, func="_V0_step", name="src_V0_step", params=_GDS,
+    vars={"y": _QV, "cline": _ZV, "dd1": _ZV, "dd2": _ZV, "m": "Z", "idx1": _NV, "idx2": _NV, "stddev": "isqrt",
+          "old_value": "qnum", "resid1": _QV, "resid2": _QV, "resid": _QV, "idx": _NV, "N": "Z", "mean": "qnum"},
+    prims=_C08_BLOCK_PRIMS, assign_effects=[_store("V0"), _MU_IADD_SCALAR],
+)
+C08_ALL = [C08_N_OBS, C08_GET, C08_MCMC_STEP, C08_ALPHA, C08_PREC_OBS, C08_PREC_W0, C08_W0_STEP, C08_V0_STEP]
 ALL += C08_ALL
